@@ -169,6 +169,57 @@ func genericAssertDischarge(p *core.Prog, f *core.Fn, ta *ast.TypeAssertExpr) (b
 	return false, ""
 }
 
+// extraAssertDischarge lets a property add its own discharge rule for type assertions (set for the duration of a run).
+var extraAssertDischarge func(c *core.Ctx, f *core.Fn, ta *ast.TypeAssertExpr) (bool, string)
+
+// extraLoopDischarge lets a property add its own termination argument for a loop form (set for the duration of a run).
+var extraLoopDischarge func(c *core.Ctx, f *core.Fn, loop *ast.ForStmt) (bool, string)
+
+// successTypes returns the static types of the first result at the success returns of g (returns whose error result
+// is nil or may be nil), following one level of `x, err := h(…); return x, err`-style delegation through locals.
+func successTypes(p *core.Prog, g *core.Fn) []types.Type {
+	var out []types.Type
+	if g == nil || g.Decl.Body == nil {
+		return nil
+	}
+	core.InspectNoLit(g.Decl.Body, func(nd ast.Node) bool {
+		ret, isRet := nd.(*ast.ReturnStmt)
+		if !isRet || len(ret.Results) != 2 {
+			return true
+		}
+		if !core.IsNilIdent(g.Pkg, ret.Results[1]) {
+			if _, isId := core.Unparen(ret.Results[1]).(*ast.Ident); !isId {
+				return true
+			}
+			for _, ft := range core.FactsAt(g, ret) {
+				if x, isNil := core.IsNilCheck(g.Pkg, ft.Expr); isNil && !ft.Truth && core.ObjOf(g.Pkg, x) == core.ObjOf(g.Pkg, ret.Results[1]) {
+					return true
+				}
+			}
+		}
+		if core.IsNilIdent(g.Pkg, ret.Results[0]) {
+			return true
+		}
+		t := g.Pkg.TypesInfo.TypeOf(ret.Results[0])
+		if t != nil {
+			if _, isI := t.Underlying().(*types.Interface); isI {
+				// a local of interface type: look at what it was defined as
+				if o := core.ObjOf(g.Pkg, ret.Results[0]); o != nil {
+					for _, d := range core.DefsOf(g, o) {
+						if call, isC := core.Unparen(d).(*ast.CallExpr); isC {
+							out = append(out, successTypes(p, p.FnOf(core.Callee(g.Pkg, call)))...)
+							return true
+						}
+					}
+				}
+			}
+			out = append(out, t)
+		}
+		return true
+	})
+	return out
+}
+
 // decoderScope runs the panic / memory / time clauses over the functions reachable from the roots, restricted to inScope.
 func decoderScope(c *core.Ctx, prefix string, roots []*core.Fn, inScope func(*core.Fn) bool, unions []*unionTable) (nFns, nOps int) {
 	p := c.P
@@ -208,6 +259,13 @@ func decoderScope(c *core.Ctx, prefix string, roots []*core.Fn, inScope func(*co
 					}
 				}
 				ok, why := genericAssertDischarge(p, f, ta)
+				if !ok && extraAssertDischarge != nil {
+					ok, why = extraAssertDischarge(c, f, ta)
+					if ok {
+						c.Hold(prefix+"no-panic", construct, o.Node.Pos(), why)
+						continue
+					}
+				}
 				c.Check(ok, prefix+"no-panic", construct, o.Node.Pos(), "unchecked type assertion whose operand's dynamic type is not fixed by a dominating store, type switch or the callee's success returns"+why)
 			case "div":
 				be := o.Node.(*ast.BinaryExpr)
@@ -251,6 +309,12 @@ func decoderScope(c *core.Ctx, prefix string, roots []*core.Fn, inScope func(*co
 				ord++
 				construct := fmt.Sprintf("%s make #%d size %s", f.Name(), ord, core.ExprString(sz))
 				ok, why := boundedSize(p, f, sz, 0)
+				if ok {
+					if bad := unguardedSubtraction(f, sz); bad != "" {
+						c.Fail(prefix+"bounded-allocation", construct, sz.Pos(), "the size contains the subtraction "+bad+" of input-derived values without a dominating test that the minuend is large enough: when it is not, the result is negative (make panics) or wraps around to gigabytes")
+						continue
+					}
+				}
 				c.Check(ok, prefix+"bounded-allocation", construct, sz.Pos(), "allocation size is input-derived, wider than 16 bits and not bounded by the bytes actually received (a dominating comparison with len()/a constant): a 4-octet length or count field makes the receiver allocate up to 4 GiB before a single body byte arrives"+why)
 			}
 			return true
@@ -267,6 +331,12 @@ func decoderScope(c *core.Ctx, prefix string, roots []*core.Fn, inScope func(*co
 			ord++
 			construct := fmt.Sprintf("%s loop #%d", f.Name(), ord)
 			ok2, why := loopTerminates(p, f, loop)
+			if !ok2 && extraLoopDischarge != nil {
+				if ok3, why3 := extraLoopDischarge(c, f, loop); ok3 {
+					c.Hold(prefix+"bounded-loop", construct, loop.Pos(), why3)
+					return true
+				}
+			}
 			c.Check(ok2, prefix+"bounded-loop", construct, loop.Pos(), "loop whose bound comes from the input is not of a recognised terminating form (counter towards a ≤ 16-bit/constant bound, decreasing counter, or every iteration consumes input and stops on a read error)"+why)
 			return true
 		})
@@ -281,6 +351,113 @@ func exprOfNode(n ast.Node) string {
 	return ""
 }
 
+// unguardedSubtraction returns the text of a subtraction `a - k…` inside a make() size whose minuend is not constant and
+// for which no dominating fact gives minuend ≥ the sum of the (constant) subtrahends.
+func unguardedSubtraction(f *core.Fn, sz ast.Expr) string {
+	bad := ""
+	var visit func(e ast.Expr)
+	visit = func(e ast.Expr) {
+		e = core.Unparen(e)
+		switch x := e.(type) {
+		case *ast.BinaryExpr:
+			if x.Op == token.SUB {
+				// flatten a - b - c
+				var subs []ast.Expr
+				min := ast.Expr(x)
+				for {
+					be, ok := core.Unparen(min).(*ast.BinaryExpr)
+					if !ok || be.Op != token.SUB {
+						break
+					}
+					subs = append(subs, be.Y)
+					min = be.X
+				}
+				if core.ConstOf(f.Pkg, min) != nil {
+					// constant minus variable: needs variable ≤ constant — treated like the general case below
+				}
+				sum, allConst := int64(0), true
+				for _, sb := range subs {
+					v := core.ConstOf(f.Pkg, sb)
+					if v == nil {
+						allConst = false
+						continue
+					}
+					var k int64
+					fmt.Sscan(v.ExactString(), &k)
+					sum += k
+				}
+				if core.ConstOf(f.Pkg, min) != nil && allConst {
+					return
+				}
+				guarded := false
+				ms := core.ExprString(stripConversions(f, min))
+				// the minuend may be a local defined from the compared expression
+				alt := ""
+				if o := core.ObjOf(f.Pkg, stripConversions(f, min)); o != nil {
+					if ds := core.DefsOf(f, o); len(ds) == 1 {
+						alt = core.ExprString(stripConversions(f, ds[0]))
+					}
+				}
+				for _, ft := range core.FactsAt(f, sz) {
+					be, ok := ft.Expr.(*ast.BinaryExpr)
+					if !ok {
+						continue
+					}
+					l, r, op := be.X, be.Y, be.Op
+					ls := core.ExprString(stripConversions(f, l))
+					if ls != ms && (alt == "" || ls != alt) {
+						continue
+					}
+					lower := (op == token.LSS && !ft.Truth) || (op == token.GEQ && ft.Truth)
+					strict := (op == token.LEQ && !ft.Truth) || (op == token.GTR && ft.Truth)
+					if !lower && !strict {
+						continue
+					}
+					if v := core.ConstOf(f.Pkg, r); v != nil && allConst {
+						var k int64
+						fmt.Sscan(v.ExactString(), &k)
+						if strict {
+							k++
+						}
+						if k >= sum {
+							guarded = true
+						}
+					}
+					if !allConst && len(subs) == 1 && core.ExprString(stripConversions(f, r)) == core.ExprString(stripConversions(f, subs[0])) {
+						guarded = true
+					}
+				}
+				if !guarded {
+					bad = core.ExprString(x)
+				}
+				return
+			}
+			visit(x.X)
+			visit(x.Y)
+		case *ast.CallExpr:
+			for _, a := range x.Args {
+				visit(a)
+			}
+		}
+	}
+	visit(sz)
+	return bad
+}
+
+func stripConversions(f *core.Fn, x ast.Expr) ast.Expr {
+	for {
+		x = core.Unparen(x)
+		call, ok := x.(*ast.CallExpr)
+		if !ok || len(call.Args) != 1 {
+			return x
+		}
+		if tv, isT := f.Pkg.TypesInfo.Types[call.Fun]; !isT || !tv.IsType() {
+			return x
+		}
+		x = call.Args[0]
+	}
+}
+
 // boundedSize: constant, ≤16-bit typed, len()-derived, or a local all of whose definitions are.
 func boundedSize(p *core.Prog, f *core.Fn, e ast.Expr, depth int) (bool, string) {
 	e = core.Unparen(e)
@@ -289,6 +466,34 @@ func boundedSize(p *core.Prog, f *core.Fn, e ast.Expr, depth int) (bool, string)
 	}
 	if depth > 5 {
 		return false, ""
+	}
+	// a dominating upper-bound test of this very expression (through integer conversions) against something bounded
+	strip := func(x ast.Expr) ast.Expr {
+		for {
+			x = core.Unparen(x)
+			call, ok := x.(*ast.CallExpr)
+			if !ok || len(call.Args) != 1 {
+				return x
+			}
+			if tv, isT := f.Pkg.TypesInfo.Types[call.Fun]; !isT || !tv.IsType() {
+				return x
+			}
+			x = call.Args[0]
+		}
+	}
+	if depth == 0 {
+		es := core.ExprString(strip(e))
+		for _, ft := range core.FactsAt(f, e) {
+			be, ok := ft.Expr.(*ast.BinaryExpr)
+			if !ok {
+				continue
+			}
+			if core.ExprString(strip(be.X)) == es && ((be.Op == token.GTR && !ft.Truth) || (be.Op == token.LEQ && ft.Truth) || (be.Op == token.LSS && ft.Truth) || (be.Op == token.GEQ && !ft.Truth)) {
+				if ok2, _ := boundedSize(p, f, be.Y, 1); ok2 {
+					return true, "dominated by an upper-bound test against the bytes received"
+				}
+			}
+		}
 	}
 	t := f.Pkg.TypesInfo.TypeOf(e)
 	if t != nil {
@@ -387,8 +592,16 @@ func isProgressCall(p *core.Prog, f *core.Fn, call *ast.CallExpr, depth int) boo
 		if len(call.Args) == 2 {
 			arg := core.Unparen(call.Args[1])
 			if id, ok := arg.(*ast.Ident); ok {
-				if defs := core.DefsOf(f, core.ObjOf(f.Pkg, id)); len(defs) == 1 {
-					arg = core.Unparen(defs[0])
+				// every definition of the field list is a non-empty literal
+				defs := core.DefsOf(f, core.ObjOf(f.Pkg, id))
+				all := len(defs) > 0
+				for _, d := range defs {
+					if cl, isCL := core.Unparen(d).(*ast.CompositeLit); !isCL || len(cl.Elts) == 0 {
+						all = false
+					}
+				}
+				if all {
+					return true
 				}
 			}
 			if cl, ok := arg.(*ast.CompositeLit); ok && len(cl.Elts) > 0 {
@@ -480,6 +693,15 @@ func loopTerminates(p *core.Prog, f *core.Fn, loop *ast.ForStmt) (bool, string) 
 		}
 		if dec, ok := loop.Post.(*ast.IncDecStmt); ok && dec.Tok == token.DEC && (cond.Op == token.GEQ || cond.Op == token.GTR) && core.SameExpr(f.Pkg, dec.X, cond.X) {
 			return true, "decreasing counter"
+		}
+	}
+	// walk of a nil-terminated linked list: for x := h; x != nil; x = x.Next (lists in scope are built by appending freshly
+	// allocated nodes while input is consumed, so they are finite and acyclic)
+	if cond, ok := loop.Cond.(*ast.BinaryExpr); ok && cond.Op == token.NEQ && core.IsNilIdent(f.Pkg, cond.Y) {
+		if as, isAs := loop.Post.(*ast.AssignStmt); isAs && len(as.Lhs) == 1 && len(as.Rhs) == 1 && core.SameExpr(f.Pkg, as.Lhs[0], cond.X) {
+			if se, isSel := core.Unparen(as.Rhs[0]).(*ast.SelectorExpr); isSel && core.SameExpr(f.Pkg, se.X, cond.X) && core.FieldOf(f.Pkg, se) != nil {
+				return true, "walk of a nil-terminated list"
+			}
 		}
 	}
 	// consuming loop: every path through the body back to the head passes a progress call
